@@ -263,11 +263,18 @@ def prepare_attributes(attrs, dyn_attributes, i18n_attributes,
         attribute = name, text, quote, space, eq, expr
         add(index, attribute)
 
+    # An attribute that only i18n:attributes names comes before the
+    # dictionaries: one of them may provide it.
+    position = next(
+        (i for i, attr in enumerate(attributes) if attr[0] is None),
+        len(attributes))
+
     for name in i18n_attributes:
         attr = name.lower()
         if attr not in normalized:
-            attributes.append((name, name, '"', " ", "=", None))
-            normalized[attr] = len(attributes) - 1
+            attributes.insert(position, (name, name, '"', " ", "=", None))
+            normalized[attr] = position
+            position += 1
 
     return attributes
 
